@@ -37,10 +37,33 @@ def pinned_api() -> dict:
 
 
 def body_hash(fn: ast.FunctionDef) -> str:
-    """hash of a function's parameters and body (docstring and own name excluded): equal for a function that was merely renamed"""
+    """hash of a function's parameters and body with docstring, own name and the spelling of its parameters / locals abstracted away:
+    equal for a function that was merely renamed (and whose locals were renamed)"""
     import hashlib
-    body = _docless(fn.body)
-    txt = ast.dump(fn.args) + "|" + "|".join(ast.dump(st) for st in body)
+    f2 = copy.deepcopy(fn)
+    f2.body = _docless(f2.body) or [ast.Pass()]
+    bound: list[str] = []
+    for a_ in f2.args.posonlyargs + f2.args.args + f2.args.kwonlyargs:
+        if a_.arg not in bound:
+            bound.append(a_.arg)
+    for x in ast.walk(f2):
+        if isinstance(x, ast.Name) and isinstance(x.ctx, (ast.Store, ast.Del)) and x.id not in bound:
+            bound.append(x.id)
+        elif isinstance(x, ast.arg) and x.arg not in bound:
+            bound.append(x.arg)
+        elif isinstance(x, (ast.FunctionDef, ast.AsyncFunctionDef)) and x is not f2 and x.name not in bound:
+            bound.append(x.name)
+    ren = {nm: f"_v{k}" for k, nm in enumerate(bound)}
+    for x in ast.walk(f2):
+        if isinstance(x, ast.Name) and x.id in ren:
+            x.id = ren[x.id]
+        elif isinstance(x, ast.arg) and x.arg in ren:
+            x.arg = ren[x.arg]
+            x.annotation = None
+        elif isinstance(x, (ast.FunctionDef, ast.AsyncFunctionDef)) and x is not f2 and x.name in ren:
+            x.name = ren[x.name]
+    f2.returns = None
+    txt = ast.dump(f2.args) + "|" + "|".join(ast.dump(st) for st in f2.body)
     txt = txt.replace(f"'{fn.name}'", "'<self-name>'")
     return hashlib.sha1(txt.encode()).hexdigest()[:16]
 
@@ -242,9 +265,61 @@ def _walk_no_nested_list(stmts):
         yield from _walk_no_nested(st)
 
 
+def _const_truth(test: ast.AST):
+    """truth value of a test made of literals only (after a literal argument was substituted for a parameter), else None"""
+    try:
+        if isinstance(test, ast.Constant):
+            return bool(test.value)
+        if isinstance(test, ast.UnaryOp) and isinstance(test.op, ast.Not):
+            v = _const_truth(test.operand)
+            return None if v is None else not v
+        if isinstance(test, ast.Compare) and len(test.ops) == 1 and isinstance(test.left, ast.Constant) and isinstance(test.comparators[0], ast.Constant):
+            a, b, op = test.left.value, test.comparators[0].value, test.ops[0]
+            if isinstance(op, ast.Eq):
+                return a == b
+            if isinstance(op, ast.NotEq):
+                return a != b
+            if isinstance(op, ast.Is):
+                return a is b
+            if isinstance(op, ast.IsNot):
+                return a is not b
+            if isinstance(op, ast.Lt):
+                return a < b
+            if isinstance(op, ast.LtE):
+                return a <= b
+            if isinstance(op, ast.Gt):
+                return a > b
+            if isinstance(op, ast.GtE):
+                return a >= b
+    except Exception:
+        return None
+    return None
+
+
+def _fold_constant_tests(stmts: list) -> list:
+    out = []
+    for st in stmts:
+        if isinstance(st, ast.If):
+            v = _const_truth(st.test)
+            if v is not None:
+                out += _fold_constant_tests(st.body if v else (st.orelse or []))
+                continue
+            st.body = _fold_constant_tests(st.body) or [ast.Pass()]
+            st.orelse = _fold_constant_tests(st.orelse or [])
+        elif isinstance(st, (ast.For, ast.While, ast.With, ast.Try)):
+            for fld in ("body", "orelse", "finalbody"):
+                b = getattr(st, fld, None)
+                if isinstance(b, list) and b:
+                    setattr(st, fld, _fold_constant_tests(b) or [ast.Pass()])
+        out.append(st)
+    return out
+
+
 class _Inliner:
-    def __init__(self, tree: ast.Module, helpers: dict):
+    def __init__(self, tree: ast.Module, helpers: dict, known: Optional[set] = None, pinned: Optional[dict] = None):
         self.tree = tree
+        self.known = known if known is not None else set()
+        self.pinned = pinned if isinstance(pinned, dict) else {}
         self.helpers = helpers       # (cls or None, name) -> _Helper
         self.counter = 0
         self.changed = False
@@ -313,15 +388,44 @@ class _Inliner:
             if nm in caller_names and nm not in ren and nm not in bound:
                 ren[nm] = nm + tag
         body = [_Rename(ren, subst).visit(st) for st in body]
-        out = prelude + _convert(body, make_result)
+        out = _fold_constant_tests(prelude + _convert(body, make_result))
         for st in out:
             ast.fix_missing_locations(st)
         return out
 
     # ---- rewriting one function -------------------------------------------------------------------------------------------------
-    def rewrite_function(self, fn: ast.FunctionDef, cls: Optional[str]) -> None:
+    def rewrite_function(self, fn: ast.FunctionDef, cls: Optional[str], qual: Optional[str] = None) -> None:
         names = _all_names(fn)
-        fn.body = self.rewrite_block(fn.body, fn, cls, names)
+        qual = qual or (f"{cls}.{fn.name}" if cls else fn.name)
+        # new nested closures that are only ever *called* (never passed around as a value) are helpers too
+        local = {}
+        present = {f"{qual}.{x.name}" for x in ast.walk(fn) if isinstance(x, ast.FunctionDef) and x is not fn}
+        gone = {h_ for q_, h_ in self.pinned.items() if q_.startswith(qual + ".") and q_ not in present}
+        for st in fn.body:
+            if isinstance(st, ast.FunctionDef) and f"{qual}.{st.name}" not in self.known and not st.name.startswith("__"):
+                if body_hash(st) in gone:
+                    continue          # a renamed nested function of the pinned tree: the rules find it by role
+                h = _Helper(st, None)
+                if not h.usable():
+                    continue
+                uses = [x for x in ast.walk(fn) if isinstance(x, ast.Name) and x.id == st.name and isinstance(x.ctx, ast.Load)]
+                callee_uses = {id(c.func) for c in ast.walk(fn) if isinstance(c, ast.Call) and isinstance(c.func, ast.Name) and c.func.id == st.name}
+                attr_uses = [x for x in ast.walk(fn) if isinstance(x, ast.Attribute) and isinstance(x.value, ast.Name) and x.value.id == st.name]
+                if uses and all(id(u) in callee_uses for u in uses) and not attr_uses and (None, st.name) not in self.helpers:
+                    local[(None, st.name)] = h
+        self.helpers.update(local)
+        try:
+            fn.body = self.rewrite_block([st for st in fn.body if not (isinstance(st, ast.FunctionDef) and (None, st.name) in local)], fn, cls, names)
+        finally:
+            for k in local:
+                self.helpers.pop(k, None)
+        # keep the definition of a closure that could not be inlined at some call site
+        still = {x.func.id for x in ast.walk(fn) if isinstance(x, ast.Call) and isinstance(x.func, ast.Name)}
+        keep = [h.fn for (c_, nm), h in local.items() if nm in still]
+        if keep:
+            fn.body = keep + fn.body
+        if local and not keep:
+            self.changed = True
 
     def rewrite_block(self, stmts: list, fn, cls, names: set) -> list:
         out = []
@@ -504,9 +608,7 @@ def inline_new_helpers(tree: ast.Module, modname: str, package_defs: Optional[di
                         h = _Helper(m, st.name)
                         if h.usable() and (package_defs or {}).get(m.name, 1) <= 1:
                             helpers[(st.name, m.name)] = h
-        if not helpers:
-            return tree
-        inl = _Inliner(tree, helpers)
+        inl = _Inliner(tree, helpers, known, pinned)
         for st in tree.body:
             if isinstance(st, ast.FunctionDef) and (None, st.name) not in helpers:
                 inl.rewrite_function(st, None)
@@ -518,13 +620,42 @@ def inline_new_helpers(tree: ast.Module, modname: str, package_defs: Optional[di
         for (c, nm), h in helpers.items():
             others = {k: v for k, v in helpers.items() if k != (c, nm)}
             if others:
-                sub = _Inliner(tree, others)
+                sub = _Inliner(tree, others, known, pinned)
                 sub.rewrite_function(h.fn, c)
                 inl.changed = inl.changed or sub.changed
         ast.fix_missing_locations(tree)
         if not inl.changed:
             break
+    _drop_fully_inlined(tree, known)
     return tree
+
+
+def _drop_fully_inlined(tree: ast.Module, known: set) -> None:
+    """a new private helper whose every call was replaced by its body is no longer part of the program the rules look at: remove its definition
+    (rules that enumerate "all functions that call X" would otherwise see the helper as one more, anchor-less, function)"""
+    cands = []
+    for st in tree.body:
+        if isinstance(st, ast.FunctionDef) and _is_new_private(st.name, st.name, known):
+            cands.append((tree.body, st, st.name))
+        elif isinstance(st, ast.ClassDef):
+            for m in st.body:
+                if isinstance(m, ast.FunctionDef) and _is_new_private(m.name, f"{st.name}.{m.name}", known):
+                    cands.append((st.body, m, m.name))
+    for body, fn, name in cands:
+        used = False
+        for x in ast.walk(tree):
+            if x is fn:
+                continue
+            if isinstance(x, ast.Attribute) and x.attr == name and not _inside(fn, x):
+                used = True
+            elif isinstance(x, ast.Name) and x.id == name and not _inside(fn, x):
+                used = True
+        if not used and len(body) > 1:
+            body.remove(fn)
+
+
+def _inside(fn: ast.AST, node: ast.AST) -> bool:
+    return any(y is node for y in ast.walk(fn))
 
 
 def _is_new_private(name: str, qual: str, known: set) -> bool:
